@@ -188,6 +188,43 @@ func classify(c *harness.C, scheme string, n, thr int, caps []capMsg) {
 		}
 		c.Outcome(scheme + "|" + m.Phase + "|" + url)
 	}
+	// envelopes that carry the type-URL field twice: a decoy first, then the genuine message. The
+	// library (protobuf semantics: the last occurrence of a scalar field wins) parses the genuine
+	// type; the receiver's classification must agree with that - or reject the envelope.
+	{
+		var bcURL, p2pURL string
+		for _, m := range caps {
+			u := typeURL(m.Data)
+			if m.Bcast && bcURL == "" {
+				bcURL = u
+			}
+			if !m.Bcast && p2pURL == "" {
+				p2pURL = u
+			}
+		}
+		done := map[string]bool{}
+		for _, m := range caps {
+			u := typeURL(m.Data)
+			if done[u] {
+				continue
+			}
+			done[u] = true
+			for _, decoy := range []string{bcURL, p2pURL} {
+				if decoy == "" || decoy == u || len(decoy) > 127 {
+					continue
+				}
+				crafted := append(append([]byte{0x0a, byte(len(decoy))}, decoy...), m.Data...)
+				fresh := newAdapter(scheme, 99)
+				r0, b0, e0 := fresh.ClassifyMsg(m.Data)
+				r1, b1, e1 := fresh.ClassifyMsg(crafted)
+				c.Add("evaluations", 1)
+				if e0 == nil && e1 == nil && (r0 != r1 || b0 != b1) {
+					short := u[strings.LastIndex(u, ".")+1:]
+					c.Violation("classification-agrees-with-routing", "c19-decoy-type-url-changes-classification:"+scheme, fmt.Sprintf("%s: an envelope that carries a decoy type URL (%s) in front of a genuine %s - which the library parses as %s - is classified as round %d broadcast=%v instead of round %d broadcast=%v", scheme, decoy[strings.LastIndex(decoy, ".")+1:], short, short, r1, b1, r0, b0), rp)
+				}
+			}
+		}
+	}
 	for ph, urls := range byPhase {
 		seen := map[uint8]string{}
 		var names []string
